@@ -5,7 +5,9 @@
    cfdm/data/netcdfindexer.py (_index: the h5netcdf sort/unique/reorder path),
    cfdm/data/data.py (__getitem__, __setitem__, array, to_memory, copy,
    first_element, equals), cfdm/read_write/netcdf/netcdfread.py (read: which
-   variables are fetched while reading, _create_netcdfarray).
+   variables are fetched while reading, _create_netcdfarray: the data type a
+   file array declares), cfdm/data/netcdfindexer.py (_unpack and the _Unsigned
+   view: the data type and the values of the array once it is in memory).
    Index normalisation and orthogonal selection are those of C03.Model.
    Definitions only. *)
 From CfdmV Require Import Common.Base Common.PySlice C03.Model.
@@ -47,11 +49,148 @@ Fixpoint fetches (t : trace) : list (Z * Z * list (list nat)) :=
   | _ :: r => fetches r
   end.
 
-(* ---- the file system and the two backends ------------------------------------- *)
-(* file number -> variable number -> the array stored there (None: no such file) *)
-Definition disk := Z -> Z -> option nd.
+(* ---- data types and packing --------------------------------------------------- *)
+(* The numeric netCDF / numpy data types. *)
+Inductive dt := I1 | I2 | I4 | I8 | U1 | U2 | U4 | U8 | F4 | F8.
+Inductive dkind := KI | KU | KF.
 
-Fixpoint lookup2 (l : list (Z * Z * nd)) (f v : Z) : option nd :=
+Definition dkind_of (d : dt) : dkind :=
+  match d with I1 | I2 | I4 | I8 => KI | U1 | U2 | U4 | U8 => KU | F4 | F8 => KF end.
+
+Definition dsize (d : dt) : Z :=
+  match d with I1 | U1 => 1 | I2 | U2 => 2 | I4 | U4 | F4 => 4 | I8 | U8 | F8 => 8 end.
+
+Definition mk_dt (k : dkind) (s : Z) : dt :=
+  match k with
+  | KI => if s <=? 1 then I1 else if s <=? 2 then I2 else if s <=? 4 then I4 else I8
+  | KU => if s <=? 1 then U1 else if s <=? 2 then U2 else if s <=? 4 then U4 else U8
+  | KF => if s <=? 4 then F4 else F8
+  end.
+
+Definition dt_code (d : dt) : Z :=
+  match d with I1 => 0 | I2 => 1 | I4 => 2 | I8 => 3 | U1 => 4 | U2 => 5 | U4 => 6 | U8 => 7 | F4 => 8 | F8 => 9 end.
+
+Definition dt_of_code (c : Z) : dt :=
+  match c with 0 => I1 | 1 => I2 | 2 => I4 | 3 => I8 | 4 => U1 | 5 => U2 | 6 => U4 | 7 => U8 | 8 => F4 | _ => F8 end.
+
+Definition dt_eqb (a b : dt) : bool := dt_code a =? dt_code b.
+
+(* numpy.promote_types on these types: the larger of one kind; a signed type
+   that holds the unsigned one (float64 for uint64); the float that holds the
+   integer (float32 up to 16 bits, else float64). *)
+Definition promote_su (ss us : Z) : dt :=
+  if us <? ss then mk_dt KI ss else if us =? 8 then F8 else mk_dt KI (2 * us).
+
+Definition float_for_int (s : Z) : Z := if s <=? 2 then 4 else 8.
+
+Definition promote (a b : dt) : dt :=
+  match dkind_of a, dkind_of b with
+  | KF, KF => mk_dt KF (Z.max (dsize a) (dsize b))
+  | KF, _ => mk_dt KF (Z.max (dsize a) (float_for_int (dsize b)))
+  | _, KF => mk_dt KF (Z.max (dsize b) (float_for_int (dsize a)))
+  | KI, KI => mk_dt KI (Z.max (dsize a) (dsize b))
+  | KU, KU => mk_dt KU (Z.max (dsize a) (dsize b))
+  | KI, KU => promote_su (dsize a) (dsize b)
+  | KU, KI => promote_su (dsize b) (dsize a)
+  end.
+
+(* The attributes of a netCDF variable that netcdf_indexer uses for unpacking:
+   _Unsigned = "true"; scale_factor and add_offset with their data types and
+   (integral) values. *)
+Record pack := {
+  p_unsigned : bool;
+  p_scale : option (dt * Z);
+  p_offset : option (dt * Z)
+}.
+
+Definition no_pack : pack := {| p_unsigned := false; p_scale := None; p_offset := None |}.
+
+(* netcdf_indexer.__getitem__: a signed integer variable with _Unsigned is
+   viewed as the unsigned type of the same size *)
+Definition is_unsigned_view (v : dt) (p : pack) : bool :=
+  p_unsigned p && match dkind_of v with KI => true | _ => false end.
+
+Definition view_dt (v : dt) (p : pack) : dt :=
+  if is_unsigned_view v p then mk_dt KU (dsize v) else v.
+
+(* netcdf_indexer._unpack: the data type of the array that is returned.
+   "data * scale_factor + add_offset" (numpy promotion, one operation after
+   the other) unless the scale is one and the offset zero, in which case the
+   data are cast to the type of the scale_factor (of the add_offset when there
+   is no scale_factor). *)
+Definition realised_dt (v : dt) (p : pack) : dt :=
+  let v' := view_dt v p in
+  match p_scale p, p_offset p with
+  | Some (ts, s), Some (ta, a) =>
+    if negb (a =? 0) || negb (s =? 1) then promote (promote v' ts) ta else ts
+  | Some (ts, s), None => if negb (s =? 1) then promote v' ts else ts
+  | None, Some (ta, a) => if negb (a =? 0) then promote v' ta else ta
+  | None, None => v'
+  end.
+
+(* integer arithmetic of numpy arrays is modulo 2^bits; floats are taken to be exact *)
+Definition wrap (d : dt) (z : Z) : Z :=
+  let m := 2 ^ (8 * dsize d) in
+  match dkind_of d with
+  | KF => z
+  | KU => z mod m
+  | KI => (z + m / 2) mod m - m / 2
+  end.
+
+(* ... and the value of one element (None = missing: masked before unpacking) *)
+Definition unpack_z (v : dt) (p : pack) (x : Z) : Z :=
+  let v' := view_dt v p in
+  let x' := if is_unsigned_view v p then x mod 2 ^ (8 * dsize v) else x in
+  match p_scale p, p_offset p with
+  | Some (ts, s), Some (ta, a) =>
+    if negb (a =? 0) || negb (s =? 1)
+    then let d1 := promote v' ts in wrap (promote d1 ta) (wrap d1 (x' * s) + a)
+    else wrap ts x'
+  | Some (ts, s), None => if negb (s =? 1) then wrap (promote v' ts) (x' * s) else wrap ts x'
+  | None, Some (ta, a) => if negb (a =? 0) then wrap (promote v' ta) (x' + a) else wrap ta x'
+  | None, None => x'
+  end.
+
+Definition unpack_val (v : dt) (p : pack) (x : option Z) : option Z :=
+  match x with Some z => Some (unpack_z v p z) | None => None end.
+
+Fixpoint nd_map (g : option Z -> option Z) (a : nd) : nd :=
+  match a with
+  | Leaf x => Leaf (g x)
+  | Node l => Node (map (nd_map g) l)
+  end.
+
+(* NetCDFRead._create_netcdfarray: the data type given to the file array when
+   the dataset is read, i.e. Data.dtype for as long as the data are on disk.
+   After C12-fix2-1 it is found by unpacking an empty array of the variable's
+   type with netcdf_indexer itself. *)
+Definition declared_dt (is_data : bool) (v : dt) (p : pack) : dt := realised_dt v p.
+
+(* The code as it was: numpy.result_type of the variable's type and of
+   result_type(add_offset, scale_factor) - for the data variable of a field only;
+   the variable's own type for every other construct; _Unsigned not considered. *)
+Definition declared_dt_old (is_data : bool) (v : dt) (p : pack) : dt :=
+  if is_data then
+    match p_offset p, p_scale p with
+    | Some (ta, _), Some (ts, _) => promote v (promote ta ts)
+    | Some (ta, _), None => promote v ta
+    | None, Some (ts, _) => promote v ts
+    | None, None => v
+    end
+  else v.
+
+(* ---- the file system and the two backends ------------------------------------- *)
+(* A netCDF variable: its type, its packing attributes, the stored (packed)
+   values with the missing ones already marked. *)
+Record stored := { s_dt : dt; s_pack : pack; s_raw : nd }.
+
+Definition s_realised (st : stored) : dt := realised_dt (s_dt st) (s_pack st).
+Definition s_unpacked (st : stored) : nd := nd_map (unpack_val (s_dt st) (s_pack st)) (s_raw st).
+
+(* file number -> variable number -> the variable stored there (None: no such file) *)
+Definition disk := Z -> Z -> option stored.
+
+Fixpoint lookup2 (l : list (Z * Z * stored)) (f v : Z) : option stored :=
   match l with
   | [] => None
   | (f', v', a) :: r => if (f =? f') && (v =? v') then Some a else lookup2 r f v
@@ -99,27 +238,38 @@ Definition h5_fetch (a : nd) (poss : list (list nat)) : nd :=
 (* The only places where the backend (and the repair of F12b) enter the model. *)
 Record cfg := {
   c_fetch : nd -> list (list nat) -> nd;
-  c_close_on_error : bool      (* __getitem__ closes the file in a finally clause *)
+  c_close_on_error : bool;     (* __getitem__ closes the file in a finally clause *)
+  c_declare : bool -> dt -> pack -> dt   (* the data type read gives to a file array *)
 }.
 
-Definition cfg_nc4 : cfg := {| c_fetch := nc4_fetch; c_close_on_error := true |}.
-Definition cfg_h5 : cfg := {| c_fetch := h5_fetch; c_close_on_error := true |}.
+Definition cfg_nc4 : cfg := {| c_fetch := nc4_fetch; c_close_on_error := true; c_declare := declared_dt |}.
+Definition cfg_h5 : cfg := {| c_fetch := h5_fetch; c_close_on_error := true; c_declare := declared_dt |}.
 (* the code as it stood before C12-fix-1: no close when the indexing raises *)
-Definition cfg_nc4_old : cfg := {| c_fetch := nc4_fetch; c_close_on_error := false |}.
-Definition cfg_h5_old : cfg := {| c_fetch := h5_fetch; c_close_on_error := false |}.
+Definition cfg_nc4_old : cfg := {| c_fetch := nc4_fetch; c_close_on_error := false; c_declare := declared_dt |}.
+Definition cfg_h5_old : cfg := {| c_fetch := h5_fetch; c_close_on_error := false; c_declare := declared_dt |}.
+(* the code as it stood before C12-fix2-1: the declared data type *)
+Definition cfg_nc4_old2 : cfg := {| c_fetch := nc4_fetch; c_close_on_error := true; c_declare := declared_dt_old |}.
+Definition cfg_h5_old2 : cfg := {| c_fetch := h5_fetch; c_close_on_error := true; c_declare := declared_dt_old |}.
 
 (* ---- data objects ------------------------------------------------------------ *)
 (* The array held by a Data object: a file array (file, address, shape: all that
    is needed to fetch later) or a numpy array in memory. *)
 Inductive cell :=
-| OnDisk (f v : Z) (shape : list Z)
-| InMem (shape : list Z) (a : nd).
+| OnDisk (f v : Z) (shape : list Z) (d : dt)    (* d: the declared data type *)
+| InMem (shape : list Z) (d : dt) (a : nd).
 
 Definition cshape (c : cell) : list Z :=
-  match c with OnDisk _ _ sh => sh | InMem sh _ => sh end.
+  match c with OnDisk _ _ sh _ => sh | InMem sh _ _ => sh end.
+
+(* Data.dtype: the file array's declared type, or the type of the numpy array *)
+Definition cdtype (c : cell) : dt :=
+  match c with OnDisk _ _ _ d => d | InMem _ d _ => d end.
 
 Definition content (dk : disk) (c : cell) : option nd :=
-  match c with OnDisk f v _ => dk f v | InMem _ a => Some a end.
+  match c with
+  | OnDisk f v _ _ => match dk f v with Some st => Some (s_unpacked st) | None => None end
+  | InMem _ _ a => Some a
+  end.
 
 Definition full_ps (sh : list Z) : list pindex := map (fun _ => pall) sh.
 
@@ -127,29 +277,32 @@ Definition full_ps (sh : list Z) : list pindex := map (fun _ => pall) sh.
    indices [ps] produced by Data._parse_indices (or Ellipsis = full_ps):
    FileArrayMixin.open raises FileNotFoundError before anything is opened;
    dask's normalize_index (inside netcdf_indexer._index) raises IndexError
-   after the file has been opened. *)
+   after the file has been opened.
+   The part selected is read from the variable and then unpacked by
+   netcdf_indexer: the array returned has the realised data type. *)
 Definition fa_get (C : cfg) (dk : disk) (f v : Z) (sh : list Z) (ps : list pindex)
-  : result (list nat * nd) * trace :=
+  : result (list nat * dt * nd) * trace :=
   match dk f v with
   | None => (Err OtherErr, [])
-  | Some a =>
+  | Some st =>
     match positions_all sh ps with
     | Err e => (Err e, EOpen f :: (if c_close_on_error C then [EClose f] else []))
-    | Ok poss => (Ok (map (@length nat) poss, c_fetch C a poss),
+    | Ok poss => (Ok (map (@length nat) poss, s_realised st,
+                      nd_map (unpack_val (s_dt st) (s_pack st)) (c_fetch C (s_raw st) poss)),
                   [EOpen f; EFetch f v poss; EClose f])
     end
   end.
 
 Definition zshape (s : list nat) : list Z := map Z.of_nat s.
 
-Definition to_cell (r : list nat * nd) : cell := InMem (zshape (fst r)) (snd r).
+Definition to_cell (r : list nat * dt * nd) : cell := InMem (zshape (fst (fst r))) (snd (fst r)) (snd r).
 
 (* Data.__getitem__: parse the indices, index the underlying array, wrap the
    numpy result in a new Data. *)
 Definition sub (C : cfg) (dk : disk) (c : cell) (idx : list index) : result cell * trace :=
   match c with
-  | InMem sh a => (rbind (getitem sh a idx) (fun r => Ok (to_cell r)), [])
-  | OnDisk f v sh =>
+  | InMem sh d a => (rbind (getitem sh a idx) (fun r => Ok (InMem (zshape (fst r)) d (snd r))), [])
+  | OnDisk f v sh _ =>
     match parse_indices sh idx with
     | Err e => (Err e, [])
     | Ok ps => let (r, t) := fa_get C dk f v sh ps in (rbind r (fun r => Ok (to_cell r)), t)
@@ -157,11 +310,11 @@ Definition sub (C : cfg) (dk : disk) (c : cell) (idx : list index) : result cell
   end.
 
 (* Data.array / source().to_memory(): the whole array *)
-Definition realise (C : cfg) (dk : disk) (c : cell) : result nd * trace :=
+Definition realise (C : cfg) (dk : disk) (c : cell) : result (dt * nd) * trace :=
   match c with
-  | InMem _ a => (Ok a, [])
-  | OnDisk f v sh =>
-    let (r, t) := fa_get C dk f v sh (full_ps sh) in (rbind r (fun r => Ok (snd r)), t)
+  | InMem _ d a => (Ok (d, a), [])
+  | OnDisk f v sh _ =>
+    let (r, t) := fa_get C dk f v sh (full_ps sh) in (rbind r (fun r => Ok (snd (fst r), snd r)), t)
   end.
 
 (* ---- operations on a heap of Data objects ------------------------------------ *)
@@ -176,7 +329,7 @@ Inductive op :=
 
 Inductive obs :=
 | ONone
-| OArray (sh : list Z) (flat : list (option Z))
+| OArray (sh : list Z) (d : dt) (flat : list (option Z))
 | OBool (b : bool)
 | OErr (e : errk).
 
@@ -212,7 +365,7 @@ Definition step (C : cfg) (dk : disk) (h : list cell) (o : op) : list cell * obs
     | None => (h, OErr OtherErr, [])
     | Some c =>
       match realise C dk c with
-      | (Ok a, t) => (set_at i (InMem (cshape c) a) h, ONone, t)
+      | (Ok (d, a), t) => (set_at i (InMem (cshape c) d a) h, ONone, t)
       | (Err e, t) => (h, OErr e, t)
       end
     end
@@ -221,7 +374,7 @@ Definition step (C : cfg) (dk : disk) (h : list cell) (o : op) : list cell * obs
     | None => (h, OErr OtherErr, [])
     | Some c =>
       match realise C dk c with
-      | (Ok a, t) => (h, OArray (cshape c) (flatten a), t)
+      | (Ok (d, a), t) => (h, OArray (cshape c) d (flatten a), t)
       | (Err e, t) => (h, OErr e, t)
       end
     end
@@ -236,10 +389,10 @@ Definition step (C : cfg) (dk : disk) (h : list cell) (o : op) : list cell * obs
       | Ok _ =>
         match realise C dk c with
         | (Err e, t) => (h, OErr e, t)
-        | (Ok a, t) =>
+        | (Ok (d, a), t) =>
           match setitem sh a idx (ones sh) (reshape (ones sh) [v]) with
           | Err e => (h, OErr e, t)
-          | Ok a' => (set_at i (InMem sh a') h, ONone, t)
+          | Ok a' => (set_at i (InMem sh d a') h, ONone, t)
           end
         end
       end
@@ -253,27 +406,29 @@ Definition step (C : cfg) (dk : disk) (h : list cell) (o : op) : list cell * obs
       | (Err e, t) => (h, OErr e, t)
       | (Ok c', t) =>
         match c' with
-        | InMem _ a => match flatten a with
-                       | [x] => (h, OArray [] [x], t)
-                       | _ => (h, OErr ValueErr, t)
-                       end
-        | OnDisk _ _ _ => (h, OErr OtherErr, t)
+        | InMem _ d a => match flatten a with
+                         | [x] => (h, OArray [] d [x], t)
+                         | _ => (h, OErr ValueErr, t)
+                         end
+        | OnDisk _ _ _ _ => (h, OErr OtherErr, t)
         end
       end
     end
   | OEq i j =>
-    (* identity shortcut; shapes; then self.array and other.array are compared *)
+    (* identity shortcut; shapes; Data.dtype of each (the declared type of a file
+       array: nothing is fetched for it); then self.array and other.array are compared *)
     match nth_error h i, nth_error h j with
     | Some c1, Some c2 =>
       if Nat.eqb i j then (h, OBool true, [])
       else if negb (list_eqb Z.eqb (cshape c1) (cshape c2)) then (h, OBool false, [])
+      else if negb (dt_eqb (cdtype c1) (cdtype c2)) then (h, OBool false, [])
       else
         match realise C dk c1 with
         | (Err e, t) => (h, OErr e, t)
-        | (Ok a1, t1) =>
+        | (Ok (_, a1), t1) =>
           match realise C dk c2 with
           | (Err e, t2) => (h, OErr e, t1 ++ t2)
-          | (Ok a2, t2) => (h, OBool (list_eqb oz_eqb (flatten a1) (flatten a2)), t1 ++ t2)
+          | (Ok (_, a2), t2) => (h, OBool (list_eqb oz_eqb (flatten a1) (flatten a2)), t1 ++ t2)
           end
         end
     | _, _ => (h, OErr OtherErr, [])
@@ -296,8 +451,8 @@ Fixpoint run_heap (C : cfg) (dk : disk) (h : list cell) (ops : list op) : list c
 (* eager access: every object brought into memory before the history starts *)
 Definition eager_cell (dk : disk) (c : cell) : cell :=
   match c with
-  | InMem _ _ => c
-  | OnDisk f v sh => match dk f v with Some a => InMem sh a | None => c end
+  | InMem _ _ _ => c
+  | OnDisk f v sh _ => match dk f v with Some st => InMem sh (s_realised st) (s_unpacked st) | None => c end
   end.
 
 (* ---- cfdm.read ----------------------------------------------------------------- *)
@@ -335,14 +490,23 @@ Definition read_fetches (d : vdesc) : bool :=
   end.
 
 (* the Data object created for one variable, and what creating it did *)
+Definition is_data_role (r : role) : bool := match r with RData => true | _ => false end.
+
+(* _create_netcdfarray: the data type declared for the variable's file array *)
+Definition declared_of (C : cfg) (dk : disk) (f : Z) (d : vdesc) : dt :=
+  match dk f (vd_var d) with
+  | Some st => c_declare C (is_data_role (vd_role d)) (s_dt st) (s_pack st)
+  | None => F8
+  end.
+
 Definition read_var (C : cfg) (dk : disk) (f : Z) (d : vdesc) : list cell * trace :=
-  let c := OnDisk f (vd_var d) (vd_shape d) in
+  let c := OnDisk f (vd_var d) (vd_shape d) (declared_of C dk f d) in
   if read_fetches d then
     match realise C dk c with
-    | (Ok a, t) =>
+    | (Ok (ty, a), t) =>
       match vd_role d with
-      | RScalarCoord => ([InMem [1] (Node [a])], t)   (* insert_dimension: now in memory *)
-      | RNodeCoord => ([InMem (vd_shape d) a], t)     (* a size-1 part dimension is inserted into
+      | RScalarCoord => ([InMem [1] ty (Node [a])], t)   (* insert_dimension: now in memory *)
+      | RNodeCoord => ([InMem (vd_shape d) ty a], t)     (* a size-1 part dimension is inserted into
                                                          the uncompressed array (layout not modelled) *)
       | _ => ([c], t)                                 (* values used, object stays lazy  *)
       end
